@@ -1128,3 +1128,211 @@ PROPS['C15'] = {
         'thread interleaving and wall-clock drift of start_processing_loop are replaced by virtual time',
     ],
 }
+
+# ----------------------------------------------------------------------------- C11
+def _c11_cps(tok):
+    if tok == '-':
+        return ''
+    try:
+        return ''.join(chr(int(x)) for x in tok.split('.'))
+    except ValueError:
+        return tok
+
+
+def _c11_norm(out):
+    m = re.match(r'crash panic index out of bounds: the len is \d+ but the index is (\d+)', out)
+    return 'crash indexOOB ' + m.group(1) if m else out
+
+
+def _c11_project(out):
+    m = re.match(r'name (\S+) act (?:key|btn|wheel) (\d+)$', out)
+    if m:
+        return f'name {m.group(1)} denotes {m.group(2)}'
+    m = re.match(r'name (\S+) act -$', out)
+    if m:
+        return f'name {m.group(1)} denotes -'
+    if out.startswith('from'):
+        return out.split(' | mod')[0]
+    return out
+
+
+def _c11_nontrivial(case, impl):
+    k = case.split()[1]
+    if k == 'code':
+        return not impl.startswith('from none')
+    if k == 'name':
+        return not impl.startswith('name none')
+    if k == 'mapped':
+        return impl.startswith('ok')
+    return True
+
+
+def _c11_cfg_text(toks):
+    """human rendering of the <config> tokens (same layout as harness cfg_text)"""
+    it = iter(toks)
+    out = []
+    try:
+        assert next(it) == 'loc'
+        n = int(next(it))
+        loc = [(_c11_cps(next(it)), next(it)) for _ in range(n)]
+        if loc:
+            out.append('(deflocalkeys-linux ' + ' '.join(f'{a} {b}' for a, b in loc) + ')')
+        assert next(it) == 'puk'
+        p = next(it)
+        if p == 'exc':
+            n = int(next(it))
+            out.append('(defcfg process-unmapped-keys (all-except ' + ' '.join(_c11_cps(next(it)) for _ in range(n)) + '))')
+        else:
+            out.append(f'(defcfg process-unmapped-keys {p})')
+        assert next(it) == 'src'
+        n = int(next(it))
+        out.append('(defsrc ' + ' '.join(_c11_cps(next(it)) for _ in range(n)) + ')')
+        assert next(it) == 'layers'
+        nl = int(next(it))
+        for li in range(nl):
+            kind = next(it)
+            n = int(next(it))
+            if kind == 'plain':
+                out.append(f'(deflayer l{li} ' + ' '.join(_c11_cps(next(it)) for _ in range(n)) + ')')
+            else:
+                ps = []
+                for _ in range(n):
+                    i = next(it)
+                    ps.append((_c11_cps(i[2:]) if i.startswith('k:') else i) + ' ' + _c11_cps(next(it)))
+                out.append(f'(deflayermap (l{li}) ' + ' '.join(ps) + ')')
+    except (StopIteration, AssertionError, ValueError):
+        out.append('<unparsable>')
+    return ' '.join(out)
+
+
+def _c11_describe(case):
+    t = case.split()
+    if len(t) < 3:
+        return case
+    if t[1] == 'code':
+        return f'key code {t[2]}: OsCode::from_u16 / as_u16 / KeyCode::from / OsCode::from'
+    if t[1] == 'name':
+        return f'key name "{_c11_cps(t[2])}": str_to_oscode' + (' and the same atom written as an action' if t[3:] == ['1'] else '')
+    if t[1] == 'mapped':
+        return 'Cfg.mapped_keys of: ' + _c11_cfg_text(t[2:])
+    if t[1] == 'tap':
+        return f'press and release input code {t[2]} on: ' + _c11_cfg_text(t[3:])
+    return case
+
+
+def _c11_stats(cases, impl):
+    import collections
+    d = collections.Counter()
+    for c, i in zip(cases, impl):
+        k = c.split()[1]
+        d['kind_' + k] += 1
+        if k == 'tap':
+            if i.startswith('m 0'):
+                d['tap_not_intercepted'] += 1
+            elif i.startswith('m 1 | -'):
+                d['tap_no_output'] += 1
+            elif i.startswith('m 1 | bd') or i.startswith('m 1 | wh'):
+                d['tap_mouse_channel'] += 1
+            elif i.startswith('m 1'):
+                d['tap_key_out'] += 1
+            elif i.startswith('crash'):
+                d['tap_crash'] += 1
+            if ' puk yes' in c or ' puk exc' in c:
+                d['tap_process_unmapped'] += 1
+            if ' plain 1 95' in c:
+                d['tap_transparent'] += 1
+            if ' map ' in c:
+                d['tap_deflayermap'] += 1
+        elif k == 'mapped':
+            d['mapped_' + (i.split()[0] if i.split() else 'empty')] += 1
+            if i.startswith('rej'):
+                d['mapped_rej_' + i.split()[1]] += 1
+            if ' puk exc' in c:
+                d['mapped_with_exceptions'] += 1
+            if ' map ' in c:
+                d['mapped_with_deflayermap'] += 1
+            if not c.split()[3] == '0':
+                d['mapped_with_deflocalkeys'] += 1
+        elif k == 'name':
+            d['name_' + ('unknown' if i.startswith('name none') else 'known')] += 1
+        elif k == 'code':
+            d['code_' + ('rejected' if i.startswith('from none') else 'accepted')] += 1
+    return dict(d)
+
+
+def _c11_shrink(case):
+    """drop one layer / one defsrc key / one exception / one deflayermap pair at a time"""
+    t = case.split()
+    if len(t) < 2 or t[1] not in ('mapped', 'tap'):
+        return
+    head = t[:2] if t[1] == 'mapped' else t[:3]
+    body = t[len(head):]
+    try:
+        it = iter(body)
+        assert next(it) == 'loc'
+        n = int(next(it)); loc = [(next(it), next(it)) for _ in range(n)]
+        assert next(it) == 'puk'
+        p = next(it); exc = None
+        if p == 'exc':
+            n = int(next(it)); exc = [next(it) for _ in range(n)]
+        assert next(it) == 'src'
+        n = int(next(it)); src = [next(it) for _ in range(n)]
+        assert next(it) == 'layers'
+        nl = int(next(it)); layers = []
+        for _ in range(nl):
+            kind = next(it); n = int(next(it))
+            if kind == 'plain':
+                layers.append(('plain', [next(it) for _ in range(n)]))
+            else:
+                layers.append(('map', [(next(it), next(it)) for _ in range(n)]))
+    except (StopIteration, AssertionError, ValueError):
+        return
+
+    def render(loc, p, exc, src, layers):
+        o = head + ['loc', str(len(loc))] + [x for a in loc for x in a] + ['puk', p]
+        if p == 'exc':
+            o += [str(len(exc))] + exc
+        o += ['src', str(len(src))] + src + ['layers', str(len(layers))]
+        for kind, items in layers:
+            o += [kind, str(len(items))]
+            o += items if kind == 'plain' else [x for a in items for x in a]
+        return ' '.join(o)
+    for i in range(len(layers)):
+        if len(layers) > 1:
+            yield render(loc, p, exc, src, layers[:i] + layers[i + 1:])
+    for i in range(len(src)):
+        ls = [(k, (it_[:i] + it_[i + 1:]) if k == 'plain' else it_) for k, it_ in layers]
+        yield render(loc, p, exc, src[:i] + src[i + 1:], ls)
+    if exc:
+        for i in range(len(exc)):
+            if len(exc) > 1:
+                yield render(loc, p, exc[:i] + exc[i + 1:], src, layers)
+        yield render(loc, 'yes', None, src, layers)
+    for li, (kind, items) in enumerate(layers):
+        if kind == 'map':
+            for i in range(len(items)):
+                yield render(loc, p, exc, src, layers[:li] + [(kind, items[:i] + items[i + 1:])] + layers[li + 1:])
+    for i in range(len(loc)):
+        yield render(loc[:i] + loc[i + 1:], p, exc, src, layers)
+
+
+PROPS['C11'] = {
+    'lean_modules': ['KVerif.Props.C11'],
+    'norm_impl': _c11_norm,
+    'oracle_project': _c11_project,
+    'nontrivial': _c11_nontrivial,
+    'describe': _c11_describe,
+    'shrink_candidates': _c11_shrink,
+    'stats': _c11_stats,
+    'per_case_timeout': 0.5,
+    'rule': 'exhaustive: every u16 value 0..=1023 through from_u16/as_u16/KeyCode::from/OsCode::from; every key name of the generated name universe (all str_to_oscode arms incl. aliases, DEFAULT_MAPPINGS, evdev identifiers, keyberon Display strings, special action atoms) plus mutated junk names, looked up and written as an action; every writable key name tapped on a self-mapped, a transparent and a deflayermap configuration; every accepted code tapped on a self-mapped and a transparent configuration (via deflocalkeys-linux), with process-unmapped-keys yes, excepted, and not intercepted; random configurations (deflocalkeys incl. shadowing and invalid numbers, defsrc subsets, deflayermap inputs incl. wildcards, exception lists, 1-3 layers) for Cfg.mapped_keys; non-trivial = code accepted / name known / configuration accepted / any tap; distinct = distinct case line',
+    'trusted_base': ['translator gen/g_keytables.py (regex extraction of both enums, from_u16_linux, str_to_oscode, DEFAULT_MAPPINGS, the output filters and the textual checks of the transcribed parser pieces); every extracted table entry is also compared with the compiled code',
+                     'Model/KeyId.lean as a transcription of parse_defsrc / parse_layers / create_defsrc_layer / resolve_coord / press_key / release_key (checked differentially, not proved)',
+                     'the simulated output sink and the harness reading of its event strings'],
+    'assumptions': ['Linux build (target_os = "linux"); macOS and Windows tables are not covered',
+                    'the decision "key not in MAPPED_KEYS => event forwarded untouched" is the one of the Linux event loop (src/kanata/linux.rs), modelled, not executed: the harness has no input device',
+                    'single-key, single-layer configurations without zippychord, sequences, overrides or block-unmapped-keys for the pipeline cases',
+                    'direct calls of kbd_out.release_key in the start-up release window of start_processing_loop bypass the ignore filter (not modelled)'],
+}
+
+HOOK_COMMITS = []
